@@ -105,6 +105,26 @@ pub fn run_node<'i, R: RuleType + Idx, T: TypedNode<'i, R> + Debug, I: Input<'i>
     format!("P:{}|C:{}", p, c)
 }
 
+/// does node type T match at byte offset `pos` of this input (fresh stack and tracker)?  Used by the
+/// semantic audit of error reports: `pos` is the location a failed parse reported.
+pub fn matches_at<'i, R: RuleType, T: TypedNode<'i, R>, I: Input<'i>>(mut input: I, pos: usize) -> bool {
+    unsafe {
+        *input.cursor() = pos;
+    }
+    let mut stack = Stack::new();
+    let mut tr = Tracker::new(input);
+    T::try_check_partial_with(input, &mut stack, &mut tr).is_some()
+}
+
+fn fnv(s: &str) -> u64 {
+    let mut h: u64 = 0xcbf29ce484222325;
+    for b in s.as_bytes() {
+        h ^= *b as u64;
+        h = h.wrapping_mul(0x100000001b3);
+    }
+    h
+}
+
 fn fmt_thin<R: RuleType + Idx>(t: &ThinToken<R>, s: &mut String) {
     let _ = write!(s, "({} {} {}", t.rule.idx(), t.start, t.end);
     for c in &t.children {
@@ -117,7 +137,7 @@ fn fmt_thin<R: RuleType + Idx>(t: &ThinToken<R>, s: &mut String) {
 /// rule struct: everything of run_node plus the full entry points and the Pairs view.
 /// The trailing X: field holds implementation-vs-implementation consistency checks (T3):
 /// the convenience entry points must agree with the `_with` ones, and parse/check errors must render identically.
-pub fn run_rule<'i, R, T, A>(a: A) -> String
+pub fn run_rule<'i, R, T, A>(a: A, audit: &dyn Fn(usize, usize, usize) -> Option<bool>) -> String
 where
     R: RuleType + Idx,
     T: ParsableTypedNode<'i, R> + Pairs<'i, R> + Debug,
@@ -160,6 +180,7 @@ where
         None => "-".to_string(),
     };
     // ---- T3: convenience entry points
+    let mut errhash: u64 = 0;
     let x = guard(|| {
         let mut probs: Vec<String> = vec![];
         let e_fp = match T::try_parse(a) {
@@ -229,13 +250,44 @@ where
         if e_pp != e_pc {
             probs.push(format!("partial parse/check error differ: {:?} vs {:?}", e_pp, e_pc));
         }
+        // the same report every time (same process; across processes the hash below is compared by the check)
+        if let Err(e2) = T::try_parse(a) {
+            if Some(e2.to_string()) != e_fp {
+                probs.push("try_parse renders a different error the second time".into());
+            }
+        }
+        // semantic audit of the full-parse report on the real code: every rule listed as expected fails at the
+        // reported location (under at least one inherited-atomicity setting), every rule listed as unexpected matches
+        if full_p_ok.is_none() {
+            let mut stack = Stack::new();
+            let mut tr = Tracker::new(input);
+            let _ = T::try_parse_with(input, &mut stack, &mut tr);
+            let (pos, attempts) = tr.finish();
+            for (_k, (posv, negv, _sp)) in attempts.iter() {
+                for r in posv {
+                    if let (Some(m0), Some(m1)) = (audit(r.idx(), 0, pos.pos()), audit(r.idx(), 1, pos.pos())) {
+                        if m0 && m1 {
+                            probs.push(format!("audit: rule {} is listed as expected at {} but matches there", r.idx(), pos.pos()));
+                        }
+                    }
+                }
+                for r in negv {
+                    if let (Some(m0), Some(m1)) = (audit(r.idx(), 0, pos.pos()), audit(r.idx(), 1, pos.pos())) {
+                        if !m0 && !m1 {
+                            probs.push(format!("audit: rule {} is listed as unexpected at {} but does not match there", r.idx(), pos.pos()));
+                        }
+                    }
+                }
+            }
+        }
+        errhash = fnv(&format!("{:?}|{:?}", e_fp, e_pp));
         if probs.is_empty() {
             "ok".to_string()
         } else {
             probs.join(" && ")
         }
     });
-    format!("P:{}|C:{}|FP:{}|FC:{}|TK:{}|X:{}", p, c, fp, fc, tk, x)
+    format!("P:{}|C:{}|FP:{}|FC:{}|TK:{}|X:{}#{:x}", p, c, fp, fc, tk, x, errhash)
 }
 
 pub fn unhex(h: &str) -> String {
